@@ -91,7 +91,7 @@ theorem helper_atomic (s : State) (hmu : s.mu = none) (w : WOp) :
 
 /-! ### abort, error, panic -/
 
-/-- If the function given to Updates returns an error, or panics after ANY number k of its operations (and does not
+/-- If the function given to Updates returns an error, or panics or terminates its goroutine (runtime.Goexit) after ANY number k of its operations (and does not
     itself call Commit), none of its writes is ever published: the published tree after Updates is the one before. -/
 theorem abort_invisible (s : State) (body : List BOp) (hb : BOp.commit ∉ body) (e : Ending) (he : e ≠ .ok) :
     (updates s body e).1.published = s.published := by
@@ -103,12 +103,14 @@ theorem abort_invisible (s : State) (body : List BOp) (hb : BOp.commit ∉ body)
     have heff : BOp.commit ∉ effBody body e := by
       cases e with
       | panicAt k => exact fun h => hb (List.mem_of_mem_take h)
+      | goexitAt k => exact fun h => hb (List.mem_of_mem_take h)
       | ok => exact hb
       | err => exact hb
     cases e with
     | ok => exact absurd rfl he
     | err => simp only [finishUpdates]; rw [abort_published, runBody_published _ _ _ heff]; rfl
     | panicAt k => simp only [finishUpdates]; rw [abort_published, runBody_published _ _ _ heff]; rfl
+    | goexitAt k => simp only [finishUpdates]; rw [abort_published, runBody_published _ _ _ heff]; rfl
 
 /-- the same for an explicit Abort of an unmanaged transaction after any operations -/
 theorem explicit_abort_invisible (s : State) (t : TxnId) (body : List BOp) (hb : BOp.commit ∉ body) :
@@ -124,7 +126,7 @@ theorem aborted_stays_settled {s : State} {t : TxnId} {x : TxnSt} (hf : s.find t
 
 /-! ### the lock -/
 
-/-- After Updates — whether its function returned nil, returned an error, or panicked after any prefix, and even if it
+/-- After Updates — whether its function returned nil, returned an error, panicked or ended its goroutine (Goexit) after any prefix, and even if it
     called Commit or Abort itself — the writer lock is free and a new write transaction can begin. -/
 theorem lock_released (s : State) (hmu : s.mu = none) (body : List BOp) (e : Ending) :
     (updates s body e).1.mu = none ∧ ∃ t, (begin (updates s body e).1 true).2 = .opened t := by
@@ -139,6 +141,7 @@ theorem lock_released (s : State) (hmu : s.mu = none) (body : List BOp) (e : End
       exact managed_abort_mu (managed_commit_mu h1).2
     | err => simp only [finishUpdates]; exact managed_abort_mu h1
     | panicAt k => simp only [finishUpdates]; exact managed_abort_mu h1
+    | goexitAt k => simp only [finishUpdates]; exact managed_abort_mu h1
   exact ⟨hm, (updates s body e).1.next, by simp [begin, hm]⟩
 
 /-- explicit Commit / Abort of an open write transaction release the lock -/
@@ -235,6 +238,8 @@ example : (updates {} body2 .ok).1.published.size = 2 := by decide
 example : (updates {} body2 .err).1.published.size = 0 := by decide
 example : (updates {} body2 (.panicAt 1)).1.published.size = 0 := by decide
 example : (updates {} body2 (.panicAt 1)).2.2 = .panicked ∧ (updates {} body2 (.panicAt 1)).1.mu = none := by decide
+example : (updates {} body2 (.goexitAt 1)).2.2 = .goexited ∧ (updates {} body2 (.goexitAt 1)).1.mu = none ∧
+    (updates {} body2 (.goexitAt 1)).1.published.size = 0 := by decide
 /-- inside the transaction its own writes are visible, outside they are not -/
 example : (let s1 := (begin {} true).1
            let s2 := (runBody s1 0 body2).1
